@@ -1097,3 +1097,101 @@ def c03_structure(units, R):
             ps = [c for c in fn.calls() if callee_name(c) == 'parse_string']
             R.ob('C03S', fn, None, 'member names are parsed as strings', bool(ps), '', key='stringkey')
     R.floor('C03S', 'structure obligations', len([o for o in R.obs if o.rule == 'C03S']), 12)
+
+
+# ---- C02 structure: dispatch on the first byte, members in input order -------------------------------------------------------
+
+EXPECTED_FIRST_BYTES = {
+    'parse_string': {ord('"')},
+    'parse_number': {ord('-')} | set(range(ord('0'), ord('9') + 1)),
+    'parse_array': {ord('[')},
+    'parse_object': {ord('{')},
+}
+
+
+def c02_structure(units, R):
+    from ..dataflow import solve
+    u = units['cJSON.c']
+    fn = u.fn('parse_value')
+    cfg = fn.cfg()
+    ALL = frozenset(range(256))
+
+    def refine(node, label, st):
+        if label[0] not in ('T', 'F'):
+            return st
+        p = cmp_parts(label[1])
+        if p is None or p[0].get('k') not in ('idx', 'un'):
+            return st
+        acc = access(p[0])
+        if acc is None or acc[1] != 0:
+            return st
+        op, c = p[1], p[2]
+        keep = {b for b in st if {'==': b == c, '!=': b != c, '<': b < c, '<=': b <= c, '>': b > c, '>=': b >= c}[op]}
+        res = frozenset(keep if label[0] == 'T' else set(st) - keep)
+        return res if res else None
+    states = solve(cfg, ALL, lambda n, s: s, refine, lambda a, b: a | b)
+    for c in fn.calls():
+        cn = callee_name(c)
+        if cn not in EXPECTED_FIRST_BYTES:
+            continue
+        node = node_containing(cfg, c)
+        got = states.get(node.id, frozenset())
+        want = EXPECTED_FIRST_BYTES[cn]
+        R.ob('C02S', fn, c, '%s is entered exactly for first bytes %s' % (cn, ''.join(chr(b) for b in sorted(want))), set(got) == want,
+             'guard admits %s' % (''.join(chr(b) if 32 < b < 127 else '\\x%02x' % b for b in sorted(got))[:60]), key='firstbyte:' + cn)
+    missing = set(EXPECTED_FIRST_BYTES) - {callee_name(c) for c in fn.calls()}
+    R.ob('C02S', fn, None, 'parse_value has a production for strings, numbers, arrays and objects', not missing, str(sorted(missing)), key='productions')
+    # containers: elements are appended at the tail in input order
+    for name in ('parse_array', 'parse_object'):
+        f2 = u.fn(name)
+        cfg2 = f2.cfg()
+        pairs = {(expr_str(strip_casts(a['l'])), expr_str(strip_casts(_final_rhs(a)))) for a in assignments(f2) if a['op'] == '='}
+        # chained `current_item = head = new_item`
+        news = [d['n'] for d in f2.locals() if 'init' in d and strip_casts(d['init']).get('k') == 'call' and
+                callee_name(strip_casts(d['init'])) == 'cJSON_New_Item']
+        if len(news) != 1:
+            raise AnalysisBroken('C02S: %s does not allocate exactly one node per element' % name)
+        N = news[0]
+        tails = [l[:-len('->next')] for (l, r) in pairs if l.endswith('->next') and r == N]
+        ok = bool(tails) and all((('%s->prev' % N, t) in pairs and (t, N) in pairs) for t in tails)
+        R.ob('C02S', f2, None, '%s links each new element after the current tail and advances the tail' % name, ok,
+             'tail variable(s): %s' % tails if ok else 'append idiom incomplete: %s' % sorted(p for p in pairs if N in p[0] or N in p[1])[:5],
+             key='append:' + name)
+        prepend = [(l, r) for (l, r) in pairs if l == '%s->next' % N]
+        R.ob('C02S', f2, None, '%s never links a new element in front of the list' % name, not prepend, str(prepend), key='noprepend:' + name)
+        # the list head is assigned only while it is NULL
+        heads = [a for a in assignments(f2) if expr_str(strip_casts(_final_rhs(a))) == N and is_ref(a['l']) and
+                 any((('%s->child' % 'item'), expr_str(strip_casts(a['l']))) == (l, r) for (l, r) in pairs)]
+        for a in f2.nodes():
+            if a.get('k') == 'bin' and a['op'] == '=' and is_ref(a['l']) and ('item->child', expr_str(strip_casts(a['l']))) in pairs \
+                    and expr_str(strip_casts(_final_rhs(a))) == N:
+                hd = strip_casts(a['l'])
+                node = node_containing(cfg2, a)
+
+                def head_null(nn, l, hd=hd):
+                    if nn.kind != 'branch' or l is None:
+                        return False
+                    p = strip_casts(nn.expr)
+                    if p.get('k') == 'bin' and p['op'] in ('==', '!='):
+                        other = p['l'] if is_null_const(p['r']) else (p['r'] if is_null_const(p['l']) else None)
+                        if other is not None and is_ref(other) and strip_casts(other)['d'] == hd['d']:
+                            return (p['op'] == '==') == (l[0] == 'T')
+                    return False
+                R.ob('C02S', f2, a, '%s sets the list head only for the first element' % name, guarded_by(cfg2, node.id, head_null), '',
+                     key='head:' + name)
+    # object members: the key is the string just parsed
+    f3 = u.fn('parse_object')
+    pairs = {(expr_str(strip_casts(a['l'])), expr_str(strip_casts(_final_rhs(a))) if not is_null_const(a['r']) else 'NULL')
+             for a in assignments(f3) if a['op'] == '='}
+    swap = any(l.endswith('->string') and r == l[:-len('string')] + 'valuestring' for (l, r) in pairs) and \
+        any(l.endswith('->valuestring') and r == 'NULL' for (l, r) in pairs)
+    R.ob('C02S', f3, None, 'member key is the parsed string, moved out of valuestring', swap, '', key='keyswap')
+    R.floor('C02S', 'structure obligations', len([o for o in R.obs if o.rule == 'C02S']), 10)
+
+
+def _final_rhs(a):
+    r = a['r']
+    r0 = strip_casts(r)
+    while r0.get('k') == 'bin' and r0['op'] == '=':
+        r0 = strip_casts(r0['r'])
+    return r0
